@@ -151,7 +151,7 @@ func (c *Ctx) CountOnly(key string, nontrivial bool) {
 }
 
 func trunc(xs []string, n int) []string {
-	out := xs
+	out := append([]string{}, xs...) // never alias the case's own lines
 	if len(out) > n {
 		out = append(append([]string{}, xs[:n]...), fmt.Sprintf("… (%d more)", len(xs)-n))
 	}
